@@ -1,11 +1,12 @@
 SPECIFICATION Spec
 CONSTANTS
   Classes <- AllClasses
-  Focuses = {"paths", "forward_dests", "hls_sessions", "hls_muxers", "rtsp_conns", "rtsp_sessions", "rtsps_conns", "rtsps_sessions", "rtmp_conns", "rtmps_conns", "srt_conns", "webrtc_sessions", "moq_sessions", "all"}
+  Focuses = {"paths", "forward_dests", "hls_sessions", "hls_muxers", "rtsp_conns", "rtsp_sessions", "rtsps_conns", "rtsps_sessions", "rtmp_conns", "rtmps_conns", "srt_conns", "webrtc_sessions", "moq_sessions", "all", "readers"}
   Counts = {1, 2}
   Filters = {"none", "type", "path"}
   L1Variant = "fixed"
-  TwoFocuses = {"paths", "forward_dests", "hls_sessions", "hls_muxers", "rtsp_conns", "rtsp_sessions", "rtsps_conns", "rtsps_sessions", "rtmp_conns", "rtmps_conns", "srt_conns", "webrtc_sessions", "moq_sessions", "all"}
+  ReaderSteps = {1, 2, 3, 4, 5, 6, 7, 8, 9, 10, 11, 12, 13, 14, 15, 16, 17, 18, 19, 20, 21, 22, 23, 24, 25, 26, 27, 28, 29, 30, 31, 32, 33, 34}
+  TwoFocuses = {"paths", "forward_dests", "hls_sessions", "hls_muxers", "rtsp_conns", "rtsp_sessions", "rtsps_conns", "rtsps_sessions", "rtmp_conns", "rtmps_conns", "srt_conns", "webrtc_sessions", "moq_sessions", "all", "readers"}
 INVARIANT ModelSane
 INVARIANT EmitCases
 INVARIANT EmitParserTests
